@@ -67,6 +67,13 @@ CHECKS = {
             "trusts python's integer and IEEE double arithmetic and gcc's linking of rt/vr_rt.c; float operands are restricted to exactly representable decimals",
             "runtime monitoring: reference-model oracle over a systematic operand matrix executed by the compiled programs (run time and comptime)",
             "cli", "4/C08"),
+    "C03": ("exploration",
+            "functions built from nested blocks / labeled blocks / while loops with defers and guarded jumps (systematic skeletons to depth 3/4 "
+            "plus random shapes) are compiled by the real CLI and run once per jump selector; the event log (reached/ran markers, iteration markers) "
+            "is judged by a trace-specification checker that only knows the static nesting, and compared with a reference interpreter.",
+            "two independent oracles written from the statement; the resolution rule of unlabeled break/continue is taken from the README and hir lowering",
+            "runtime monitoring: offline trace-specification checker (exactly-once / LIFO / not-left) over recorded event logs + reference-model log equality",
+            "cli", "4/C03"),
 }
 
 NOT_YET = "check not built yet in this round (work in progress; see DESIGN.md section 4 for the plan)"
